@@ -344,6 +344,107 @@ func sf2Blocks(list []ast.Stmt, visit func(list []ast.Stmt)) {
 	}
 }
 
+// sf2ReadsOf counts the io.ReadFull(<conn>, …) calls of a body and says whether each of them is the init of an
+// `if …; err != nil { …; return … }`.  failKind "" = any return; "bool": the return's last value must be `false`;
+// "error": it must not be `nil`.
+func sf2ReadsOf(body *ast.BlockStmt, conn, failKind string) (int, bool) {
+	reads, allGood := 0, true
+	var stack []ast.Node
+	ast.Inspect(body, func(n ast.Node) bool {
+		if n == nil {
+			stack = stack[:len(stack)-1]
+			return true
+		}
+		stack = append(stack, n)
+		c, ok := n.(*ast.CallExpr)
+		if !ok {
+			return true
+		}
+		sel, ok := c.Fun.(*ast.SelectorExpr)
+		if !ok || sel.Sel.Name != "ReadFull" || len(c.Args) < 1 {
+			return true
+		}
+		if a, ok := c.Args[0].(*ast.Ident); !ok || a.Name != conn {
+			return true
+		}
+		reads++
+		good := false
+		// CallExpr <- AssignStmt (init) <- IfStmt
+		if len(stack) >= 3 {
+			if as, ok := stack[len(stack)-2].(*ast.AssignStmt); ok {
+				if is, ok := stack[len(stack)-3].(*ast.IfStmt); ok && is.Init == ast.Stmt(as) {
+					if be, ok := is.Cond.(*ast.BinaryExpr); ok && be.Op == token.NEQ && render(be.X) == "err" && render(be.Y) == "nil" {
+						if k := len(is.Body.List); k > 0 {
+							if rs, ok := is.Body.List[k-1].(*ast.ReturnStmt); ok {
+								switch failKind {
+								case "":
+									good = true
+								case "bool":
+									good = len(rs.Results) > 0 && render(rs.Results[len(rs.Results)-1]) == "false"
+								case "error":
+									good = len(rs.Results) > 0 && render(rs.Results[len(rs.Results)-1]) != "nil"
+								}
+							}
+						}
+					}
+				}
+			}
+		}
+		if !good {
+			allGood = false
+		}
+		return true
+	})
+	return reads, allGood
+}
+
+// sf2HelperCallWith: the statement calls a package-level function with the identifier `conn` among its arguments:
+//
+//	…, v := helper(…conn…)  |  …, v = helper(…conn…)       -> (call, "v", false)   v = the last target
+//	if !helper(…conn…) { … }                                -> (call, "", true)
+//	if v := helper(…conn…); … { … }                         -> (call, "v", true)
+func sf2HelperCallWith(p *sf2Pkg, st ast.Stmt, conn string) (*ast.CallExpr, string, bool) {
+	isHelper := func(e ast.Expr) *ast.CallExpr {
+		c, ok := e.(*ast.CallExpr)
+		if !ok {
+			return nil
+		}
+		id, ok := c.Fun.(*ast.Ident)
+		if !ok || p.byName[id.Name] == nil || p.byName[id.Name].fd.Recv != nil {
+			return nil
+		}
+		for _, a := range c.Args {
+			if ai, ok := a.(*ast.Ident); ok && ai.Name == conn {
+				return c
+			}
+		}
+		return nil
+	}
+	switch x := st.(type) {
+	case *ast.AssignStmt:
+		if len(x.Rhs) == 1 {
+			if c := isHelper(x.Rhs[0]); c != nil {
+				return c, render(x.Lhs[len(x.Lhs)-1]), false
+			}
+		}
+	case *ast.IfStmt:
+		if x.Init != nil {
+			if as, ok := x.Init.(*ast.AssignStmt); ok && len(as.Rhs) == 1 {
+				if c := isHelper(as.Rhs[0]); c != nil {
+					return c, render(as.Lhs[len(as.Lhs)-1]), true
+				}
+			}
+			return nil, "", false
+		}
+		if u, ok := x.Cond.(*ast.UnaryExpr); ok && u.Op == token.NOT {
+			if c := isHelper(u.X); c != nil {
+				return c, "", true
+			}
+		}
+	}
+	return nil, "", false
+}
+
 func sf2Registries(p *sf2Pkg) ([]sf2Registry, error) {
 	var out []sf2Registry
 	var ferr error
@@ -413,45 +514,76 @@ func sf2Registries(p *sf2Pkg) ([]sf2Registry, error) {
 						return true
 					})
 					// reads of the stored connection
-					r.ReadErrorReturns = true
-					var stack []ast.Node
-					ast.Inspect(f.fd.Body, func(n ast.Node) bool {
-						if n == nil {
-							stack = stack[:len(stack)-1]
-							return true
-						}
-						stack = append(stack, n)
-						c, ok := n.(*ast.CallExpr)
-						if !ok {
-							return true
-						}
-						sel, ok := c.Fun.(*ast.SelectorExpr)
-						if !ok || sel.Sel.Name != "ReadFull" || len(c.Args) < 1 {
-							return true
-						}
-						if a, ok := c.Args[0].(*ast.Ident); !ok || a.Name != vid.Name {
-							return true
-						}
-						r.Reads++
-						good := false
-						// CallExpr <- AssignStmt (init) <- IfStmt
-						if len(stack) >= 3 {
-							if as, ok := stack[len(stack)-2].(*ast.AssignStmt); ok {
-								if is, ok := stack[len(stack)-3].(*ast.IfStmt); ok && is.Init == ast.Stmt(as) {
-									if be, ok := is.Cond.(*ast.BinaryExpr); ok && be.Op == token.NEQ && render(be.X) == "err" && render(be.Y) == "nil" {
-										if k := len(is.Body.List); k > 0 {
-											if _, ok := is.Body.List[k-1].(*ast.ReturnStmt); ok {
-												good = true
-											}
-										}
-									}
+					r.Reads, r.ReadErrorReturns = sf2ReadsOf(f.fd.Body, vid.Name, "")
+					// Normalisation "read through a helper" (DESIGN.md §7): the handler may hand the connection to a
+					// package-level function that does the reads.  Its io.ReadFull calls on that parameter count as the
+					// handler's, and "a failed read makes the handler return" is then two links: in the helper every
+					// failed read ends in `return …, false` (helper whose last result is a bool) or `return …, <non-nil
+					// error>` (last result an error); in the handler the call is followed at once by
+					// `if !ok { …; return }` / `if err != nil { …; return }` on that result (or is the condition / init of such
+					// an `if`).  Either link missing: readErrorReturns = false.
+					sf2Blocks(f.fd.Body.List, func(list []ast.Stmt) {
+						for i, st := range list {
+							call, failVar, direct := sf2HelperCallWith(p, st, vid.Name)
+							if call == nil {
+								continue
+							}
+							hf := p.byName[render(call.Fun)]
+							idx := -1
+							for ai, a := range call.Args {
+								if id, ok := a.(*ast.Ident); ok && id.Name == vid.Name {
+									idx = ai
 								}
 							}
+							var params []string
+							for _, fl := range hf.fd.Type.Params.List {
+								for _, nm := range fl.Names {
+									params = append(params, nm.Name)
+								}
+							}
+							if idx < 0 || idx >= len(params) {
+								continue
+							}
+							kind := ""
+							if res := hf.fd.Type.Results; res != nil && len(res.List) > 0 {
+								kind = render(res.List[len(res.List)-1].Type)
+							}
+							n, good := sf2ReadsOf(hf.fd.Body, params[idx], kind)
+							if n == 0 {
+								continue
+							}
+							r.Reads += n
+							if !good || (kind != "bool" && kind != "error") {
+								r.ReadErrorReturns = false
+								continue
+							}
+							// the handler returns when the helper reports the failure
+							var test *ast.IfStmt
+							if direct {
+								test, _ = st.(*ast.IfStmt)
+							} else if i+1 < len(list) {
+								test, _ = list[i+1].(*ast.IfStmt)
+								if test != nil && test.Init != nil {
+									test = nil
+								}
+							}
+							ok := false
+							if test != nil {
+								want := "!" + failVar
+								if kind == "error" {
+									want = failVar + " != nil"
+								}
+								if direct && kind == "bool" && failVar == "" {
+									want = "!" + render(call)
+								}
+								if k := len(test.Body.List); render(test.Cond) == want && k > 0 {
+									_, ok = test.Body.List[k-1].(*ast.ReturnStmt)
+								}
+							}
+							if !ok {
+								r.ReadErrorReturns = false
+							}
 						}
-						if !good {
-							r.ReadErrorReturns = false
-						}
-						return true
 					})
 				}
 				out = append(out, r)
@@ -588,13 +720,20 @@ func (p *sf2Pkg) doneShape(body *ast.BlockStmt) string {
 	return "other"
 }
 
-func sf2ReadsSocket(body *ast.BlockStmt) bool {
+// sf2ReadsSocket: the body reads a socket itself, or calls by plain name a package-level function that does
+// (normalisation "socket read through a helper", see server_facts.go)
+func sf2ReadsSocket(p *sf2Pkg, body ast.Node, depth int) bool {
 	reads := false
 	ast.Inspect(body, func(n ast.Node) bool {
 		if c, ok := n.(*ast.CallExpr); ok {
-			if sel, ok := c.Fun.(*ast.SelectorExpr); ok {
-				switch sel.Sel.Name {
+			switch f := c.Fun.(type) {
+			case *ast.SelectorExpr:
+				switch f.Sel.Name {
 				case "ReadFromUDP", "Accept", "ReadFull":
+					reads = true
+				}
+			case *ast.Ident:
+				if h := p.byName[f.Name]; h != nil && h.fd.Recv == nil && depth < 4 && sf2ReadsSocket(p, h.fd.Body, depth+1) {
 					reads = true
 				}
 			}
@@ -822,7 +961,7 @@ func (p *sf2Pkg) walkGo(ctx *sf2GoCtx, list []ast.Stmt, out *[]sf2Spawn) error {
 				}
 			case *ast.ForStmt:
 				c := ctx.clone()
-				if sf2ReadsSocket(x.Body) {
+				if sf2ReadsSocket(p, x.Body, 0) {
 					c.inLoop = true
 				}
 				return p.walkGo(c, x.Body.List, out)
